@@ -707,7 +707,7 @@ impl Runner {
         let want_s = want_res.join(",");
         // a batch entry point that answers differently from the single-call one is also an
         // API-path dependence (C15)
-        let tag = if stop { "C06 C15" } else { "C06" };
+        let tag = if stop || resume { "C06 C15" } else { "C06" };
         self.check(res_s == want_s, || {
             format!("{} call results differ from the ordering contract: fe={} got {} want {}", tag, fe, res_s, want_s)
         });
@@ -915,7 +915,7 @@ impl Runner {
         if let Some(e) = &self.expect {
             let want = e.iter().any(|(k2, _)| k2 == &k);
             self.check(r == want && r2 == want && r3 == want, || {
-                format!("C02 contains_key({}) = {}/{}/{}, inserted: {}", hex(&k), r, r2, r3, want)
+                format!("C02 C11 contains_key({}) = {}/{}/{}, inserted: {}", hex(&k), r, r2, r3, want)
             });
         }
         format!("has {}", r)
